@@ -205,6 +205,10 @@ std::vector<Op> entity_alphabet(int level) {
     add(1, "g1.addMultiTag(m1)", [=](File &f) { Group g = G(f, b1, "g1"); MultiTag a = M(f, b1, "m1"); need(!g.hasMultiTag(a)); g.addMultiTag(a); });
     add(2, "g1.dataArrays({a2,a1})", [=](File &f) { G(f, b1, "g1").dataArrays({A(f, b1, "a2"), A(f, b1, "a1")}); });
     add(2, "g1.tags({})", [=](File &f) { Group g = G(f, b1, "g1"); need(g.tagCount() > 0); g.tags(std::vector<Tag>{}); });
+    add(2, "g1.multiTags({m1})", [=](File &f) { Group g = G(f, b1, "g1"); g.multiTags(std::vector<MultiTag>{M(f, b1, "m1")}); });
+    add(2, "g1.dataFrames({f1})", [=](File &f) { Group g = G(f, b1, "g1"); g.dataFrames(std::vector<DataFrame>{F(f, b1, "f1")}); });
+    add(2, "g1.removeMultiTag(m1)", [=](File &f) { Group g = G(f, b1, "g1"); MultiTag a = M(f, b1, "m1"); need(g.hasMultiTag(a)); g.removeMultiTag(a); });
+    add(2, "g1.removeDataFrame(f1)", [=](File &f) { Group g = G(f, b1, "g1"); DataFrame a = F(f, b1, "f1"); need(g.hasDataFrame(a)); g.removeDataFrame(a); });
     add(2, "g1.addSource(s1)", [=](File &f) { Group g = G(f, b1, "g1"); Source s = SRC(f, b1, {"s1"}); need(!g.hasSource(s)); g.addSource(s); });
     add(2, "g1.metadata(x1)", [=](File &f) { G(f, b1, "g1").metadata(SEC(f, {"x1"})); });
 
